@@ -482,6 +482,7 @@ def c15_h(run, fx):
 def check(run, fx, tier, floors=True):
     import speclayout
     speclayout.rule_layouts(run, fx, "C15-L", ["sfnt", "cff"], floors)
+    speclayout.rule_records(run, fx, "C15-R", ['sfnt'], floors)
     c15_a(run, fx)
     c15_b(run, fx, floors)
     narrowing.rule_narrowing(run, fx, "C15-c", floors, roots=narrowing.writer_roots(fx))
